@@ -282,6 +282,12 @@ func (t *Tree) recover(errp *error) {
 			panic(e)
 		}
 		if t != nil {
+			if t.lex != nil {
+				// The parser gave up before end of input: let the
+				// lexer goroutine run to completion rather than
+				// leaving it blocked on its next token forever.
+				t.lex.drain()
+			}
 			t.stopParse()
 		}
 		*errp = e.(error)
